@@ -50,6 +50,15 @@ def cases_for(rng, q):
             ops += ["poll"] * 6 + ["peer 1 5a", "poll", "poll"]
             ops += settle()
             cases.append(("case settled", ops))
+    # write callbacks that write again, with two pings buffered in one segment: a flush completes, its read continuation starts
+    # the next flush, and the waiting write's callback registers with that one
+    for npings in (1, 2, 3):
+        for first in ("write", "ping"):
+            ops = ["chain 100 101 %d" % rng.choice([1, 5]), "chain 101 102 3", "read 1"]
+            pings = ["peer 9 %s" % bytes([65 + k]).hex() for k in range(npings)]
+            ops += (["write 100 4"] + pings) if first == "write" else (pings + ["poll", "write 100 4"] + pings)
+            ops += ["poll"] * 8 + ["peer 1 5a", "poll", "poll"] + settle()
+            cases.append(("case settled", ops))
     for _ in range(20 if q else 400):
         ops = ["read 1"]
         rid, wid = 1, 100
@@ -58,8 +67,13 @@ def cases_for(rng, q):
             if x < 0.3:
                 ops.append("peer 9 %s" % (bytes(rng.randrange(256) for _ in range(rng.choice([0, 2, 20]))).hex() or "-"))
             elif x < 0.55:
-                ops.append("write %d %d" % (wid, rng.choice([0, 1, 7, 125, 126, 4000, 60000])))
-                wid += 1
+                if rng.random() < 0.3:
+                    ops.append("chain %d %d %d" % (wid, wid + 1, rng.choice([1, 9, 200])))
+                    ops.append("write %d %d" % (wid, rng.choice([0, 1, 7, 125, 126, 4000, 60000])))
+                    wid += 2
+                else:
+                    ops.append("write %d %d" % (wid, rng.choice([0, 1, 7, 125, 126, 4000, 60000])))
+                    wid += 1
             else:
                 ops.append("poll")
         ops += ["poll"] * 8 + ["peer 2 4242", "poll", "poll"] + settle()
